@@ -48,6 +48,7 @@ fn main() {
             let r = exec::exec_step(&spec);
             println!("{}", serde_json::to_string(&r).unwrap());
         }
+        "exec-session" => exec::exec_session(),
         "seamcheck" => {
             let scratch = args.get(2).cloned().unwrap_or_else(|| "/dev/shm".into());
             match exec::seam_selfcheck(&scratch) {
